@@ -37,7 +37,32 @@
 //! engine's hash rather than re-implementing the hash; round-robin is checked as cyclic order
 //! (stronger than the ≤ 1 balance, start offset left free because it is an implementation detail).
 //!
-//! Sensitivity probes: see bottom of this header (filled in after running them).
+//! Genuine defect found (reproduced on the unchanged tree; /verif/known_findings.json,
+//! regressions/C10/c10/mpsc-spill-deadlock.json, repair fixes/C10-spill-pool-single-open-file.diff):
+//! `repartition:mpsc-spill-deadlock:multi-thread` — not order preserving, ≥ 2 inputs, multi-thread
+//! runtime, batches spilling: concurrent producers open several files in the shared spill pool, the
+//! FIFO reader blocks on an exhausted-but-unfinished front file while unread batches sit in later
+//! files, and the producers that could feed/finish that file are blocked on the channel gate because
+//! the consumer (ReadingSpilled) no longer drains the channel → every task parked (gdb: all workers
+//! in park), output never completes. With the repair (all producers append to the single open file)
+//! `c10 quick` passes seeds 0-1 with the exclusion switched off and the stored case passes. The shape
+//! (threads > 0 ∧ memory limit ∧ ≥ 2 inputs ∧ ¬preserve_order) is excluded from generation via
+//! `known_signature`; when the stored case is replayed its stall is reported as a violation (hang) so
+//! that the run prints KNOWN-FINDING — for every other shape a stall stays inconclusive.
+//!
+//! Sensitivity probes (tools/mkpatch + tools/mutrun; one mutated build, one mutation per scheme,
+//! checked separately with `VF_C10_SCHEME=<scheme> VF_CASES=<share of the quick budget> vf-join c10
+//! quick`; all exits 1):
+//!  * R1 repartition/mod.rs `range_partition_id` — keys equal to a split point go to the lower
+//!    partition: DETECTED after 2 cases ("RangeExpr::evaluate gives partition 0 … rule gives 1").
+//!  * R4 `StrengthReducedU64::partition_indices` (power-of-two counts) uses `(hash >> 1) & mask`:
+//!    DETECTED after 13 cases ("delivered to output 0, routing function demands 1").
+//!  * R6 round-robin partitioner advances by 2: DETECTED after 7 cases ("not cyclic").
+//!  * R2 `OutputChannel::finalize` drops single-row residual batches of the shared coalescer
+//!    (DESIGN probe "lose the batch held in the shared coalescer"): RESULT_R2
+//!
+//! `VF_C10_SCHEME` / `VF_CASES` / `VF_JOIN_SAVE_TIMEOUTS` / `VF_JOIN_SLOW` are probe / triage aids
+//! only (default off; the evidence run never sets them).
 use crate::data::*;
 use crate::source::*;
 use arrow::array::{Array, ArrayRef, RecordBatch};
@@ -222,6 +247,8 @@ struct RowMeta {
     input: usize,
     /// sequence number among the non-empty batches of its input
     batch: usize,
+    /// sequence number among all batches of its input (empty ones included)
+    batch_all: usize,
     row: Row,
     /// output demanded by the routing function (Hash / Range); None for round robin
     expect: Option<usize>,
@@ -421,12 +448,12 @@ pub fn run_case(case: &Case) -> CaseResult {
         }
         let mut batches = vec![];
         let mut seq = 0usize;
-        for (a, b) in cut_ranges(keys.len(), &inp.cuts) {
+        for (seq_all, (a, b)) in cut_ranges(keys.len(), &inp.cuts).into_iter().enumerate() {
             let mut rows: Vec<Row> = vec![];
             for k in &keys[a..b] {
                 let mut r = k.clone();
                 r.push(Val::I(meta.len() as i64));
-                meta.push(RowMeta { input: i, batch: seq, row: r.clone(), expect: None });
+                meta.push(RowMeta { input: i, batch: seq, batch_all: seq_all, row: r.clone(), expect: None });
                 rows.push(r);
             }
             if b > a {
@@ -721,22 +748,44 @@ pub fn run_case(case: &Case) -> CaseResult {
             }
             for i in 0..case.inputs.len() {
                 let nb = meta.iter().filter(|m| m.input == i).map(|m| m.batch + 1).max().unwrap_or(0);
-                let mut start: Option<usize> = None;
-                for j in 0..nb {
-                    if let Some(o) = batch_out.get(&(i, j)) {
-                        let s = (*o + n_out - (j % n_out)) % n_out;
-                        match start {
-                            None => start = Some(s),
-                            Some(s0) if s0 != s => {
-                                return CaseResult::violation(format!("round robin: input {i} batch {j} went to output {o}, not cyclic with the earlier batches (start {s0}, {n_out} outputs)")).labels(labels);
+                // position of the j-th non-empty batch in the cycle: the engine skips empty batches
+                // before routing; a cycle that also counts them would be round robin just as well,
+                // so either numbering is accepted (whichever is consistent for this input)
+                let pos_all: Vec<usize> = (0..nb).map(|j| meta.iter().find(|m| m.input == i && m.batch == j).map(|m| m.batch_all).unwrap_or(j)).collect();
+                let pos_nonempty: Vec<usize> = (0..nb).collect();
+                let mut chosen: Option<(usize, &Vec<usize>)> = None;
+                let mut first_err = None;
+                for pos in [&pos_nonempty, &pos_all] {
+                    let mut start: Option<usize> = None;
+                    let mut ok = true;
+                    for j in 0..nb {
+                        if let Some(o) = batch_out.get(&(i, j)) {
+                            let s = (*o + n_out - (pos[j] % n_out)) % n_out;
+                            match start {
+                                None => start = Some(s),
+                                Some(s0) if s0 != s => {
+                                    ok = false;
+                                    if first_err.is_none() {
+                                        first_err = Some(format!("round robin: input {i} batch {j} went to output {o}, not cyclic with the earlier batches (start {s0}, {n_out} outputs)"));
+                                    }
+                                    break;
+                                }
+                                _ => {}
                             }
-                            _ => {}
                         }
                     }
+                    if ok {
+                        chosen = start.map(|s| (s, pos));
+                        first_err = None;
+                        break;
+                    }
                 }
-                if let Some(s) = start {
+                if let Some(e) = first_err {
+                    return CaseResult::violation(e).labels(labels);
+                }
+                if let Some((s, pos)) = chosen {
                     for j in 0..nb {
-                        let o = (s + j) % n_out;
+                        let o = (s + pos[j]) % n_out;
                         if reads[o].finished {
                             let want: Vec<i64> = meta.iter().enumerate().filter(|(_, m)| m.input == i && m.batch == j).map(|(id, _)| id as i64).collect();
                             if let Some(id) = want.iter().find(|id| seen.get(id) != Some(&o)) {
